@@ -336,7 +336,7 @@ Proof.
   induction es as [|e r IH]; intros HP c n k; [simpl; apply bk_one; exact I|].
   inversion HP as [|? ? He Hr]; subst. destruct r as [|e2 r]; [simpl; apply He|].
   change (gen_begin gen nloops c n (e :: e2 :: r)) with
-    ((match gen c n e with [] => [] | _ => gen c n e ++ [IPop] end) ++ gen_begin gen nloops c (n + nloops e) (e2 :: r)).
+    ((match gen c n e with [] => [] | _ => gen c n e ++ [GenF1.IPop] end) ++ gen_begin gen nloops c (n + nloops e) (e2 :: r)).
   apply bk_app; [|now apply IH].
   pose proof (He c n k) as H0. destruct (gen c n e) eqn:E; [apply bk_nil|].
   apply bk_app; [exact H0|apply bk_one; exact I].
@@ -346,7 +346,7 @@ Proof.
   induction es as [|e r IH]; intros HP c n k; [simpl; apply bk_nil|].
   inversion HP as [|? ? He Hr]; subst. destruct r as [|e2 r]; [simpl; apply He|].
   change (gen_scope_body gen nloops c n (e :: e2 :: r)) with
-    (gen c n e ++ [IPop] ++ gen_scope_body gen nloops c (n + nloops e) (e2 :: r)).
+    (gen c n e ++ [GenF1.IPop] ++ gen_scope_body gen nloops c (n + nloops e) (e2 :: r)).
   apply bk_app; [apply He|]. apply bk_app; [apply bk_one; exact I|now apply IH].
 Qed.
 Lemma BK_sc : forall or es, Forall BK es -> forall c n k, bk k (gen_sc gen nloops c n or es).
@@ -354,7 +354,7 @@ Proof.
   intros or. induction es as [|e r IH]; intros HP c n k; [simpl; apply bk_nil|].
   inversion HP as [|? ? He Hr]; subst. destruct r as [|e2 r]; [simpl; apply He|].
   change (gen_sc gen nloops c n or (e :: e2 :: r)) with
-    (gen c n e ++ [IDup; IBranch or (length (gen_sc gen nloops c (n + nloops e) or (e2 :: r)) + 2); IPop] ++
+    (gen c n e ++ [GenF1.IDup; GenF1.IBranch or (length (gen_sc gen nloops c (n + nloops e) or (e2 :: r)) + 2); GenF1.IPop] ++
      gen_sc gen nloops c (n + nloops e) or (e2 :: r)).
   apply bk_app; [apply He|]. apply bk_app; [|now apply IH].
   repeat (apply bk_cons; [exact I|]). apply bk_nil.
